@@ -132,6 +132,8 @@ type c07Run1 struct {
 	frame  string
 	stack  string
 	exs    []simnode.Exchange
+	// timedOut: the client's own deadline expired on every attempt; nothing to judge (reported inconclusive)
+	timedOut bool
 }
 
 func c07Frame(st string) string {
@@ -153,7 +155,23 @@ func c07LogMakers() []gen.LogMaker {
 
 // run performs one Get through a fresh client while the node applies muts.
 func (s *c07Scenario) run(tag string, muts []simnode.Mut) *c07Run1 {
-	return s.serve(jrpc2.New(s.node.URL(tag)), tag, muts)
+	r := s.serve(jrpc2.New(s.node.URL(tag)), tag, muts)
+	for i := 0; i < 3 && c07ClientTimeout(r.err); i++ {
+		// the client's own 10 s deadline expired on an overloaded machine: the source gave no answer that could
+		// be judged; a fresh client asks again
+		s.c.Obs("calls_repeated_after_client_timeout", 1)
+		r = s.serve(jrpc2.New(s.node.URL(tag)), tag, muts)
+	}
+	if c07ClientTimeout(r.err) {
+		r.timedOut = true
+		s.c.Inconclusive("the JSON-RPC client's own deadline expired four times in a row (overloaded machine): %v", r.err)
+	}
+	return r
+}
+
+// c07ClientTimeout: the error is the HTTP client's deadline, not anything the source sent.
+func c07ClientTimeout(err error) bool {
+	return err != nil && (strings.Contains(err.Error(), "context deadline exceeded") || strings.Contains(err.Error(), "Client.Timeout"))
 }
 
 // serve performs one Get through the given client while the node applies muts.
@@ -567,10 +585,7 @@ func c07MutKinds(muts []simnode.Mut) string {
 }
 
 func (s *c07Scenario) judge(tag string, muts []simnode.Mut) {
-	c := s.c
-	r := s.run(tag, muts)
-	c.Obs("get_calls", 1)
-	client := "caching"
+XX
 	if tag != "" {
 		client = "nocache"
 	}
@@ -714,6 +729,14 @@ func (s *c07Scenario) judge(tag string, muts []simnode.Mut) {
 func (s *c07Scenario) retryAfterRejection(first *c07Run1, v1 *refmodel.AttVerdict, muts []simnode.Mut, mk, methodOfMut string) {
 	c := s.c
 	r := s.serve(first.cl, "", nil)
+	for i := 0; i < 3 && c07ClientTimeout(r.err); i++ {
+		c.Obs("calls_repeated_after_client_timeout", 1)
+		r = s.serve(first.cl, "", nil)
+	}
+	if c07ClientTimeout(r.err) {
+		c.Inconclusive("the JSON-RPC client's own deadline expired four times in a row (overloaded machine): %v", r.err)
+		return
+	}
 	c.Obs("get_calls", 1)
 	c.Obs("retries_after_rejection", 1)
 	c.Evals(1)
